@@ -115,6 +115,20 @@ Theorem C02_aead_arguments :
 Proof. repeat split; reflexivity. Qed.
 Print Assumptions C02_aead_arguments.
 
+(** The install-once argument needs the *_OPEN_ACK handlers to run one at a
+    time per connection, and the nonce theorems need ONE SessionKey object per
+    session: only the unordered datagram types go to the parallel lane of the
+    peer read loop, and crypto.SessionKey (mutex + counters) is never declared
+    by value nor copied through a dereference anywhere in internal/. *)
+Definition fast_lane_ok (l : list string) : bool :=
+  forallb (fun x => String.eqb x "FrameUDPDatagram" || String.eqb x "FrameICMPEcho") l.
+
+Theorem C02_single_object_facts :
+  gen_c02_fast_lane_types_recognised = true /\ fast_lane_ok gen_c02_fast_lane_types = true /\
+  gen_c02_session_key_value_typed_uses = 0 /\ gen_c02_session_key_dereference_copies = 0.
+Proof. repeat split; reflexivity. Qed.
+Print Assumptions C02_single_object_facts.
+
 Definition site_ok (s : string * string * N * N) : bool :=
   let '(_, _, role, flag) := s in (N.eqb role flag) && (N.ltb flag 2).
 
